@@ -199,6 +199,18 @@ fn run1d<T: Fl>(job: &Job, quick: bool, out: &mut JobOut) {
     l0[n - 1] = l0[0];
     lane1[n - 1] = lane1[0];
     let data = Array2::from_shape_fn((n, 2), |(i, j)| if j == 0 { l0[i] } else { lane1[i] });
+    // data without any lane (a zero-length trailing axis): nothing to compute, but an
+    // out-of-range query is still out of range
+    if let Ok(Ok(ip0)) = catch(|| build_linear::<T, _>(Some(&xt), Array2::<T>::zeros((n, 0)), false)) {
+        out.states += 1;
+        probe1d(&ip0, &xt, 0, &key, "Linear[zero-lane data]", true, out);
+    }
+    if n >= 3 {
+        if let Ok(Ok(ip0)) = catch(|| build_spline::<T, _>(&xt, Array2::<T>::zeros((n, 0)), &BcSpec::TopNatural, false)) {
+            out.states += 1;
+            probe1d(&ip0, &xt, 0, &key, "CubicSpline[Natural, zero-lane data]", true, out);
+        }
+    }
     match catch(|| build_linear::<T, _>(Some(&xt), data.clone(), false)) {
         Ok(Ok(ip)) => {
             out.states += 1;
@@ -264,14 +276,15 @@ fn run1d<T: Fl>(job: &Job, quick: bool, out: &mut JobOut) {
     }
 }
 
-fn run2d<T: Fl>(job: &Job, quick: bool, out: &mut JobOut) {
+fn run2d_l<T: Fl>(job: &Job, quick: bool, out: &mut JobOut, nl: usize) {
     let ay = job.ay.as_ref().unwrap();
     let (Some(xt), Some(yt)) = (vec_exact::<T>(&job.ax.x), vec_exact::<T>(&ay.x)) else {
         return;
     };
     let (nx, ny) = (xt.len(), yt.len());
     let key = job.key();
-    let data = Array3::from_shape_fn((nx, ny, 2), |(i, j, k)| T::from_f64_lossy((i * 3 + j * 5 + k) as f64 * 0.25));
+    let strat = if nl == 0 { "Bilinear[zero-lane data]" } else { "Bilinear" };
+    let data = Array3::from_shape_fn((nx, ny, nl), |(i, j, k)| T::from_f64_lossy((i * 3 + j * 5 + k) as f64 * 0.25));
     let ip = match catch(|| build_bilinear::<T, _>(Some(&xt), Some(&yt), data.clone(), false)) {
         Ok(Ok(ip)) => ip,
         other => {
@@ -296,10 +309,13 @@ fn run2d<T: Fl>(job: &Job, quick: bool, out: &mut JobOut) {
             let ok = in_range(&xt, qx) && in_range(&yt, qy);
             for call in nimc::subj::CALLS {
                 let sh: &[usize] = if call.starts_with("interp_array") { &[] } else { &[1] };
-                let r = call2d(&ip, &[qx], &[qy], sh, 2, call);
-                verdict(out, &key, "Bilinear", call, format!("single:x={cx},y={cy}"), ok, classify(&r), true, &|| case(&[qx], &[qy], sh));
+                let r = call2d(&ip, &[qx], &[qy], sh, nl, call);
+                verdict(out, &key, strat, call, format!("single:x={cx},y={cy}"), ok, classify(&r), true, &|| case(&[qx], &[qy], sh));
             }
             // scalar on 2-D data
+            if nl == 0 {
+                continue;
+            }
             if let Ok(Ok(ip2)) = catch(|| {
                 build_bilinear::<T, _>(Some(&xt), Some(&yt), data.index_axis(ndarray::Axis(2), 0).to_owned(), false)
             }) {
@@ -308,7 +324,7 @@ fn run2d<T: Fl>(job: &Job, quick: bool, out: &mut JobOut) {
                     Ok(Err(_)) => "Err(OutOfBounds)".to_string(),
                     Err(_) => "panic".to_string(),
                 };
-                verdict(out, &key, "Bilinear", "interp_scalar", format!("single:x={cx},y={cy}"), ok, got, true, &|| case(&[qx], &[qy], &[]));
+                verdict(out, &key, strat, "interp_scalar", format!("single:x={cx},y={cy}"), ok, got, true, &|| case(&[qx], &[qy], &[]));
             }
         }
     }
@@ -325,24 +341,29 @@ fn run2d<T: Fl>(job: &Job, quick: bool, out: &mut JobOut) {
         let basex: Vec<T> = (0..m).map(|i| gx[i % 3]).collect();
         let basey: Vec<T> = (0..m).map(|i| gy[i % 3]).collect();
         for call in ARRAY_CALLS {
-            let r = call2d(&ip, &basex, &basey, sh, 2, call);
-            verdict(out, &key, "Bilinear", call, format!("batch{sh:?}:all-in-range"), true, classify(&r), false, &|| case(&basex, &basey, sh));
+            let r = call2d(&ip, &basex, &basey, sh, nl, call);
+            verdict(out, &key, strat, call, format!("batch{sh:?}:all-in-range"), true, classify(&r), false, &|| case(&basex, &basey, sh));
             for p in 0..m {
                 for &(b, bn) in &bx {
                     let mut qx = basex.clone();
                     qx[p] = b;
-                    let r = call2d(&ip, &qx, &basey, sh, 2, call);
-                    verdict(out, &key, "Bilinear", call, format!("batch{sh:?}:x-{bn}@{p}"), false, classify(&r), true, &|| case(&qx, &basey, sh));
+                    let r = call2d(&ip, &qx, &basey, sh, nl, call);
+                    verdict(out, &key, strat, call, format!("batch{sh:?}:x-{bn}@{p}"), false, classify(&r), true, &|| case(&qx, &basey, sh));
                 }
                 for &(b, bn) in &by {
                     let mut qy = basey.clone();
                     qy[p] = b;
-                    let r = call2d(&ip, &basex, &qy, sh, 2, call);
-                    verdict(out, &key, "Bilinear", call, format!("batch{sh:?}:y-{bn}@{p}"), false, classify(&r), true, &|| case(&basex, &qy, sh));
+                    let r = call2d(&ip, &basex, &qy, sh, nl, call);
+                    verdict(out, &key, strat, call, format!("batch{sh:?}:y-{bn}@{p}"), false, classify(&r), true, &|| case(&basex, &qy, sh));
                 }
             }
         }
     }
+}
+
+fn run2d<T: Fl>(job: &Job, quick: bool, out: &mut JobOut) {
+    run2d_l::<T>(job, quick, out, 2);
+    run2d_l::<T>(job, true, out, 0);
 }
 
 fn body(ctx: &Ctx) -> (Summary, Meta) {
